@@ -12,8 +12,9 @@ META = {
                    'is produced and the headers are terminated, no exception leaves do_POST/do_GET/do_post/do_get, an error answer '
                    'from the middleware is built from a Fault, and a request rejected before dispatch reaches no registered '
                    'handler (handlers are the only holders of the MDIB and the subscription table).',
-    'outside': ['XML well-formedness, entity expansion, external fetches, schema validation: decided inside libxml2 (C); the parser '
-                'options are constants in the source, not a solver question',
+    'outside': ['XML well-formedness and schema validation: decided inside libxml2 (C). Entity expansion / external fetches are decided '
+                'by running the real reader + libxml2 on selector-composed DOCTYPE documents (C13.xml.entities): a pool of 6 DOCTYPE '
+                'kinds x 3 reference places, not arbitrary documents',
                 'MDIB / subscription-table snapshots of a real provider (needs lxml); replaced by "no registered handler is reached"',
                 'socket-level blocking (a peer that keeps the connection open without sending; negative Content-Length reads to EOF)',
                 'short reads: rfile is a BufferedReader (read(n) returns fewer than n bytes only at end of data)',
@@ -121,6 +122,17 @@ def obligations(tier):
                   claim='read_response_body terminates and returns bytes (or raises an exception defined by httpreader)'))
 
     # ---- middleware alone
+    obs.append(Ob('C13.xml.entities', 'harness.C13', 'xml_entities', timeout=t,
+                  functions=['sdc11073.pysoap.msgreader.MessageReader.read_received_message',
+                             'sdc11073.pysoap.msgreader.MessageReader.read_xml_text', 'sdc11073.pysoap.msgreader.MessageReader.read_wsdl'],
+                  stubs=['real MessageReader (SdcV1Definitions, with and without schema validation) and real lxml / libxml2, run with '
+                         'interpreter semantics on documents composed from symbolic selectors; external entities point to local '
+                         'files created by the harness'],
+                  bounds='4 parse sites x 6 DOCTYPE kinds (internal entity, nested internal entities x64, external SYSTEM entity, '
+                         'external parameter entity, no reference, external DTD subset) x reference in element text / attribute value '
+                         '/ body of a GetMdib request',
+                  claim='the document is refused, or nothing in the tree / addressing header handed on contains the replacement text '
+                        '(no expansion) or the content of the referenced file (no fetch)'))
     obs.append(Ob('C13.middleware.post', 'harness.C13', 'middleware_post', timeout=t, functions=MIDDLE, stubs=[S_XML, S_SVC, S_HDR],
                   bounds='3 reader outcomes x action (un)registered x 4 handler outcomes x sync/deferred dispatcher x 4 paths',
                   claim='do_post never raises; (200, proper response) iff read, registered and handled, else 4xx/5xx with a fault built '
